@@ -6,6 +6,7 @@
     store <events…>                       answers "arena=<arena dump> wf=0|1"
 -/
 import Xsel.Protocol
+import Xsel.SpecStore
 open Xsel
 
 structure DState where
@@ -27,11 +28,62 @@ def handle (st : DState) (line : String) : DState × String :=
     | _, none, _, _ => (st, "bad-env")
     | _, _, none, _ => (st, "bad-start")
     | _, _, _, none => (st, "bad-expr")
-  | some (.list (.atom "store" :: evs)) =>
-    match evs.mapM decEv with
-    | some es =>
+  | some (.list [.atom "store", .list (.atom "evs" :: evs), ar]) =>
+    -- the real tree (dump) against the model builder and the specification of the stream's tree
+    match evs.mapM decEv, decArena ar with
+    | some es, some real =>
       let a := Store.build es
-      (st, s!"arena={encArena a} wf={if wfb a then 1 else 0}")
+      let b (x : Bool) := if x then 1 else 0
+      (st, s!"same={b (a == real)} wf={b (wfb real)} mirrors={b (Spec.mirrors es real)} modelwf={b (wfb a)} modelmirrors={b (Spec.mirrors es a)}")
+    | none, _ => (st, "bad-events")
+    | _, none => (st, "bad-arena")
+  | some (.list [.atom "json", .list (.atom "toks" :: toks), .atom terminal, vals]) =>
+    match toks.mapM decJTok with
+    | none => (st, "bad-tokens")
+    | some ts =>
+      if terminal != "eof" then (st, "err")
+      else match Json.adapter ts with
+        | none => (st, "err")
+        | some evs =>
+          match vals with
+          | .list (.atom "vals" :: vs) =>
+            match vs.mapM decJVal with
+            | some jv =>
+              let specEvs := jv.flatMap Json.eventsOf
+              let specToks := jv.flatMap Json.tokensOf
+              let ok := specEvs == evs && specToks == ts
+              (st, s!"ok events={encEvs evs} specok={if ok then 1 else 0}")
+            | none => (st, "bad-vals")
+          | _ => (st, s!"ok events={encEvs evs}")
+  | some (.list [.atom "html", dom]) =>
+    match decHTree dom with
+    | none => (st, "bad-dom")
+    | some t =>
+      match Html.adapter t with
+      | none => (st, "err")
+      | some evs =>
+        let ok := Html.specEvents t == some evs
+        (st, s!"ok events={encEvs evs} specok={if ok then 1 else 0}")
+  | some (.list [.atom "xml", xdoc, .list (.atom "toks" :: toks), .atom terminal, dump]) =>
+    match toks.mapM decXTok with
+    | none => (st, "bad-tokens")
+    | some ts =>
+      if terminal != "eof" then (st, "err")
+      else
+        let b (x : Bool) := if x then 1 else 0
+        let a := Store.build (Xml.events ts)
+        match decArena dump with
+        | none => (st, "bad-arena")
+        | some real =>
+          match xdoc with
+          | .list (.atom "xdoc" :: top) =>
+            match decXNodes top with
+            | some nodes => (st, s!"same={b (a == real)} wf={b (wfb real)} specok={b (Spec.describe real == Xml.dataModel nodes)}")
+            | none => (st, "bad-xdoc")
+          | _ => (st, s!"same={b (a == real)} wf={b (wfb real)}")
+  | some (.list [.atom "storemodel", .list (.atom "evs" :: evs)]) =>
+    match evs.mapM decEv with
+    | some es => (st, s!"arena={encArena (Store.build es)}")
     | none => (st, "bad-events")
   | _ => (st, "bad-op")
 
